@@ -14,6 +14,7 @@ CONSTANTS
   PeerFaults <- Faults
   DeadlineBeforeLock = FALSE
   NoGuard = FALSE
+  GuardPerClient = FALSE
   RearmPerRead = FALSE
   NoCloseOnError = FALSE
 CHECK_DEADLOCK FALSE
